@@ -3,6 +3,7 @@ package directive
 import (
 	stdBytes "bytes"
 	"fmt"
+	"unicode/utf8"
 
 	"github.com/jsightapi/jsight-schema-go-library/bytes"
 
@@ -46,6 +47,13 @@ func IsArrayOfTypes(b bytes.Bytes) bool {
 func (d *Directive) AppendParameter(b bytes.Bytes) error {
 	b = unescapeParameter(b)
 	s := b.String()
+
+	// Parameters become keys and values of the JSON catalog, where invalid
+	// UTF-8 sequences would be silently replaced (and different parameters
+	// would become equal).
+	if !utf8.Valid(b) {
+		return fmt.Errorf("%s %q: invalid UTF-8", jerr.IncorrectParameter, s)
+	}
 
 	switch d.Type() { //nolint:exhaustive // We catch all uncovered enumeration.
 	case URL, Get, Post, Put, Patch, Delete:
